@@ -63,7 +63,8 @@ def gen_headers(rng, spoof=False):
     hs = [(b"Host", b"metadata")]
     pool = [(b"Metadata", b"true"), (b"x-ms-version", b"2012-11-30"), (b"Accept", b"*/*"), (b"User-Agent", b"verif/1.0"),
             (b"X-Custom", b"  padded value  "), (b"x-dup", b"one"), (b"X-Dup", b"two"), (b"x-empty", b""),
-            (b"Accept-Language", b"en-US,en;q=0.5"), (b"x-ms-client-request-id", b"abc-123")]
+            (b"Accept-Language", b"en-US,en;q=0.5"), (b"x-ms-client-request-id", b"abc-123"),
+            (b"Connection", b"keep-alive"), (b"TE", b"trailers"), (b"Cache-Control", b"no-cache")]
     for h in pool:
         if rng.chance(1, 3):
             hs.append(h)
